@@ -241,7 +241,7 @@ pub fn balance_groups_json(
     let tz = settings.report.report_tz.clone();
     let op: accumulator::TxnGroupByOp<'_> =
         Box::new(move |txn: &Transaction| group_key(gb, &txn.header.timestamp, tz.clone()));
-    let groups = accumulator::balance_groups(&txn_set.txns, op, &ctx, sel.as_ref(), settings);
+    let groups = accumulator::balance_groups(&txn_set.txns, op, &ctx, sel.as_ref(), settings)?;
     let v: Vec<String> = groups.iter().map(balance_to_json).collect();
     Ok(format!("[{}]", v.join(",")))
 }
